@@ -1276,8 +1276,8 @@ def run_hit_case(run, model, case):
 
 
 def run_many_case(run, model, case):
-    """honest loss-free network of n real Nodes; `ann` further peers (LightAnnouncer: the real store_to_peer) announce
-    the blob to the K nodes a real peer_search names; every node's value lookup must return every announcer"""
+    """honest loss-free network of n real Nodes in which `ann` of them announce the same blob; every node's value
+    lookup must return every announcer (paging across the storing nodes, merged by the finder)"""
     n, seed, n_ann = case['n'], case['seed'], case['ann']
     sim = Sim(seed, n, Profile(delay=tuple(case['delay']), dup=case['dup']))
     rng = random.Random(seed * 13 + 5)
@@ -1288,17 +1288,22 @@ def run_many_case(run, model, case):
         rng.shuffle(order)
         await sim.start(order, [rng.choice([0.0, 0.5, 3.0]) for _ in order])
         await asyncio.wait_for(sim.nodes[0].joined.wait(), 3000)
-        await asyncio.sleep(1300)
+        await asyncio.sleep(case.get('settle', 1300))
         blob = bytes(rng.randrange(256) for _ in range(48))
-        targets_peers = await sim.nodes[rng.randrange(n)].peer_search(blob)
-        by_id = {nd.protocol.node_id: nd for nd in sim.nodes}
-        targets = [by_id[p.node_id] for p in targets_peers if p.node_id in by_id]
-        anns = [LightAnnouncer(sim, j) for j in range(n_ann)]
-        for a in anns:
-            r = await a.announce_to(blob, targets)
-            if not all(ok for _, ok in r):
-                problems.append('an honest store was refused or timed out')
-        ann_ids = [a.protocol.node_id for a in anns]
+        # the announcers are `ann` of the real nodes, each with its own announce_blob (BlobAnnouncer retry rule).
+        # (Extra store-only peers are not used here: they answer findValue with nothing, get handed out as contacts and,
+        # when closer to the hash than the storing nodes, push those out of the searcher's K+running window.)
+        chosen = rng.sample(range(n), n_ann)
+        storing = set()
+        for a in chosen:
+            for _ in range(40):
+                st = await sim.nodes[a].announce_blob(blob.hex())
+                if len(st) >= min(5, n - 1):
+                    break
+                await asyncio.sleep(60)
+            storing.update(st)
+        targets = [nd for nd in sim.nodes if nd.protocol.node_id in storing]
+        ann_ids = [sim.nodes[a].protocol.node_id for a in chosen]
 
         async def one(i):
             found, finder, fin = await sim.value_lookup(i, blob, max_probes=3000)
@@ -1307,12 +1312,13 @@ def run_many_case(run, model, case):
         worst = None
         for i, found, finder, fin in results:
             problems.extend(check_lookup(sim, i, finder, found, fin, 0, 0))
-            got = {p.node_id for p in found}
+            got = {p.node_id for p in found} | {sim.nodes[i].protocol.node_id}
             missing = [j for j, x in enumerate(ann_ids) if x not in got]
             if missing and (worst is None or len(missing) > len(worst[1])):
                 worst = (i, missing)
         if worst:
-            bad = sum(1 for _, found, _, _ in results if len({p.node_id for p in found} & set(ann_ids)) < n_ann)
+            bad = sum(1 for i, found, _, _ in results
+                      if not set(ann_ids) <= ({p.node_id for p in found} | {sim.nodes[i].protocol.node_id}))
             problems.append(f'loss-free honest network of {n}, {n_ann} live announcers stored on {len(targets)} nodes: '
                             f'the value lookup of node {worst[0]} misses announcers {worst[1][:10]} '
                             f'({len(worst[1])} missing; {bad} of {n} lookups incomplete)')
@@ -1546,8 +1552,8 @@ def main(run):
         '264,265); C compact addresses on every edge of the reserved networks x port edges x id lengths; E1 honest '
         'loss-free networks of 2..40 real Nodes, sampled join orders/gaps, delay up to 2 s with reordering and '
         'duplication, 1-3 announcers using the BlobAnnouncer retry rule, lookups from every node fresh / +12h / 24h-150s '
-        '/ 24h+; E1b honest networks of 10..40 nodes where 9..100 further peers announce the same blob to the K nodes a real '
-        'peer_search names and every node must find every announcer; E2 networks with datagram loss 0-50%%, delay up to 7 s, dead nodes and a fixed catalogue of %d hostile '
+        '/ 24h+; E1b honest networks of 10..40 nodes (thorough: up to 110) where 9..100 of the nodes announce the same blob with announce_blob '
+        'and every node must find every announcer; E2 networks with datagram loss 0-50%%, delay up to 7 s, dead nodes and a fixed catalogue of %d hostile '
         'reply kinds; D every finder that ran in B2/E1/E2 (incl. join/refresh/announce lookups) is replayed event by event '
         'through the extracted model. distinct = distinct case dict (seeded scenarios / op lists / byte strings / finder '
         'traces by searcher+key+length); non-trivial = contains at least one query (ds), n>0 (pages), >2 events (traces).'
@@ -1626,11 +1632,12 @@ def main(run):
             case['passage'] = 'real'
         add_hit(do_case(run, model, case, rng), n)
     # ---- E1b: many announcers on the K storing nodes of an honest network
-    many = [(12, 24), (14, 60), (18, 100)] if tier != 'thorough' else \
-        [(n, a) for n in (10, 12, 16, 24, 40) for a in (9, 17, 24, 60, 100)]
+    many = [(24, 20), (40, 30)] if tier != 'thorough' else \
+        [(10, 9), (12, 11), (20, 19), (30, 24), (40, 17), (40, 30), (40, 39), (70, 60), (70, 60), (110, 100), (110, 100)]
     for n, a in many:
         do_case(run, model, {'part': 'many', 'n': n, 'ann': a, 'seed': rng.randrange(1 << 30),
-                             'delay': [0.001, rng.choice([0.05, 0.5, 1.5])], 'dup': rng.choice([0.0, 0.2])}, rng)
+                             'delay': [0.001, rng.choice([0.05, 0.5, 1.5])], 'dup': rng.choice([0.0, 0.2]),
+                             'settle': rng.choice([0, 300, 1300])}, rng)
     # ---- E2
     for idx in range(vlib.scaled(tier, 16, 240)):
         add_fault(do_case(run, model, gen_fault_case(rng, idx), rng))
